@@ -107,3 +107,18 @@ package ice
 //@   ensures failed-lookup-or-no-rule-keeps-the-local-address: gErr || !gMatched ==> result1 && result0 == mappedAddrs0
 //@   ensures replace-without-usable-external-drops-the-candidate: !gErr && gMatched && gReplace && len(result0) == 0 ==> !result1
 //@   ensures append-never-drops-the-candidate: !gErr && gMatched && !gReplace ==> result1
+
+// Legacy NAT1To1IPs: at most one bare (catch-all) entry per family; the flags carried
+// between entries record exactly the families seen so far.
+//@ func validateLegacyNAT1To1Entry
+//@   props C19
+//@   opt nosafety
+//@   ghostvar v4 bool = false
+//@   ghostvar parsedOK bool = false
+//@   ghostvar nparts int = 0
+//@   site call Split#1 ghost nparts := len(result)
+//@   site call validateIPString#1 ghost v4 := result1
+//@   site call validateIPString#1 ghost parsedOK := result2 == nil
+//@   ensures a-second-bare-entry-of-a-family-is-rejected: mapping != "" && nparts == 1 && parsedOK && ((v4 && hasIPv4CatchAll) || (!v4 && hasIPv6CatchAll)) ==> result2 != nil
+//@   ensures a-first-bare-entry-is-recorded-for-its-family: mapping != "" && nparts == 1 && parsedOK && !((v4 && hasIPv4CatchAll) || (!v4 && hasIPv6CatchAll)) ==> result2 == nil && result0 == (hasIPv4CatchAll || v4) && result1 == (hasIPv6CatchAll || !v4)
+//@   ensures other-entries-leave-the-flags: mapping == "" || nparts != 1 || !parsedOK ==> result0 == hasIPv4CatchAll && result1 == hasIPv6CatchAll
